@@ -1493,6 +1493,11 @@ class RTCSctpTransport(AsyncIOEventEmitter):
             for stream_id in list(self._data_channels.keys()):
                 self._data_channel_closed(stream_id)
 
+            # including the ones which were still waiting for a stream ID
+            for queue_item in self._data_channel_queue:
+                queue_item[0]._setReadyState("closed")
+            self._data_channel_queue.clear()
+
             # no more events will be emitted, so remove all event listeners
             # to facilitate garbage collection.
             self.remove_all_listeners()
